@@ -84,12 +84,12 @@ def posIndex (pos : List (List (List Char))) (want : List (List Char)) : Option 
   if i < pos.length then some i else none
 
 /-- `read_oov` with `userPOS: forbid`; `none` = `Err` -/
-def readOov (cats : List (Nat × CatInfo)) (pos : List (List (List Char))) (numLeft numRight : Nat) :
+def readOov (ge : Bool) (cats : List (Nat × CatInfo)) (pos : List (List (List Char))) (numLeft numRight : Nat) :
     List (List Char) → List (Nat × List OovDef) → Option (List (Nat × List OovDef))
   | [], acc => some acc
   | line :: rest, acc =>
     let line := trim line
-    if line.isEmpty || line.head? == some '#' then readOov cats pos numLeft numRight rest acc
+    if line.isEmpty || line.head? == some '#' then readOov ge cats pos numLeft numRight rest acc
     else
       let cols := Wire.splitOn ',' line
       if cols.length < 10 then none else
@@ -101,10 +101,11 @@ def readOov (cats : List (Nat × CatInfo)) (pos : List (List (List Char))) (numL
           if (findKey ct cats).isNone then none else
           match parseI16 c1, parseI16 c2, parseI16 c3, posIndex pos (more.take 6) with
           | some l, some r, some c, some p =>
-            -- `oov.left_id as usize > num_left()`: a negative id becomes huge
-            if l < 0 || l.toNat > numLeft then none
-            else if r < 0 || r.toNat > numRight then none
-            else readOov cats pos numLeft numRight rest (pushOov ct ⟨l.toNat, r.toNat, c, p⟩ acc)
+            -- `oov.left_id as usize > num_left()` in the pinned tree (`ge = false`), `>=` after the repair of D15b;
+            -- a negative id becomes huge
+            if l < 0 || l.toNat > numLeft || (ge && l.toNat == numLeft) then none
+            else if r < 0 || r.toNat > numRight || (ge && r.toNat == numRight) then none
+            else readOov ge cats pos numLeft numRight rest (pushOov ct ⟨l.toNat, r.toNat, c, p⟩ acc)
           | _, _, _, _ => none
       | _ => none
 
@@ -160,7 +161,7 @@ def parseMecab (toks : List (List Char)) : Option (Option MecabCfg) :=
       match readCharProp (lines (bytesToChars md)) [] with
       | none => some none
       | some cats =>
-        match readOov cats pos nl nr (lines (bytesToChars unk)) [] with
+        match readOov (Wire.kv? toks "unkge" == some ['1']) cats pos nl nr (lines (bytesToChars unk)) [] with
         | none => some none
         | some oovs => some (some ⟨cats, oovs⟩)
     | _, _, _, _, _ => none
